@@ -28,6 +28,13 @@ CLAIMS = {
  "C11": ("trace validation: AccrueRewards (floor(dt*emissions/liquidity); nothing at zero liquidity / uninitialized / 128-bit overflow; monotone timestamps) on every recorded "
          "instruction; reward share ledgers (upper bound + bounded-rounding lower bound); collect = min(owed, vault); set-emissions settles first and needs a day of funding",
          "no toy-scale model of rewards yet (the reward rules are evaluated on recorded executions only)", "4 C11"),
+ "C12": ("trace validation: every Pinocchio-served increase/decrease (v1, v2) in recorded histories is re-executed on a copy of the bank by the Anchor handler; TLC checks equal "
+         "return code, byte-identical accounts and equal events (predicate DualOK), entrypoint routing against the real extern-C symbol, memory-mapped getters/setters vs Anchor "
+         "serializers and the usable-tick lookup vs the spec formula",
+         "byte equality is observed by the harness and asserted by the spec (encode/decode fidelity is outside what a TLA+ model adds); by-token-amounts and reposition have no Anchor twin", "4 C12"),
+ "C13": ("TLC explores the abstract tick array over the boundary slot set completely and generates one behaviour per reachable content; each is replayed (with every outgoing update and "
+         "query) into Anchor-fixed/Anchor-dynamic/Pinocchio-fixed/Pinocchio-dynamic arrays and the recorded results are validated by TLC against module WpTickArray (contents, errors, "
+         "bitmap, used length 148+112n, next-initialized-tick); random sequences over all 88 slots with full-width payloads", "exhaustive for the boundary slot set in the thorough tier; sampled in quick", "4 C13"),
  "C08": ("trace validation: user/vault balance deltas of every recorded increase/decrease (Pinocchio v1+v2) equal the spec's exact TokenDeltas "
          "(up on deposit, down on withdrawal) and respect max/min; toy instance exercises the same TokenDeltas definition", "as C01", "4 C08"),
 }
